@@ -33,11 +33,11 @@ COMPONENTS = {
     "real": ["fcp.parser.get_fcp", "fcp.parser.get_fcp_from_string", "FcpV2Transformer (incl. mod_expr)", "lark Earley parser",
              "fcp.error.Logger.error / log_node"],
     "stub": ["a private scratch directory as the disk; the simulator tears, garbles, empties or removes files",
-             "SIGALRM watchdog (20 s per parse) as the termination oracle"],
+             "SIGALRM watchdog (15 s per parse) as the termination oracle"],
 }
 ASSUMPTIONS = [
     "inputs are text (valid UTF-8); a missing ROOT file is outside 'every input text' and is not injected",
-    "termination is a 20 s watchdog per parse (measured cost: 2-80 ms), not a step bound",
+    "termination is a 15 s watchdog per parse (measured cost: 2-80 ms), not a step bound",
     "with several files of one base name, a citation [name.fcp:n] is satisfied by any of them",
     "nothing is asserted about WHICH verdict is returned (C07/C08)",
 ]
@@ -331,7 +331,7 @@ def run_one(seed: int, index: int, tier: str) -> dict:
             distinct.add(short([depth_of.get(file, 1), kind, tokinfo, api, out]))
         tr.add("parse", file=file, fault=kind, at=tokinfo, outcome=out, v=[x[:2] for x in v])
         for x in v:
-            nviol[0] += 1
+            nviol[0] += 8 if x[0] == "hang" else 1        # one watchdog expiry ends the run
             res["violations"].append(mk(x, {"files": ff, "api": api, "logger": mode, "fault": {"kind": kind, "file": file},
                                             "history": hist}, kind, same_bn, index))
         if len(sample_faults) < 4 and kind != "torn":
@@ -399,11 +399,12 @@ def check_workload(w):
         # the parses that preceded this one in the same process and directory (not judged)
         for hf in w.get("history", []):
             files_h, mode_h = (hf["files"], hf.get("logger", mode)) if "files" in hf else (hf, mode)
+            # parsed AND rendered, exactly like in the run (rendering is what touches the logger's state)
             if w.get("api") == "string":
-                par.parse("string", files_h["main.fcp"], mode_h)
+                judge_parse(par, "string", files_h["main.fcp"], mode_h, {"main.fcp": [files_h["main.fcp"]]}, probes)
             else:
                 K.sync_files(base / "t", files_h)
-                par.parse("file", base / "t" / "main.fcp", mode_h)
+                judge_parse(par, "file", base / "t" / "main.fcp", mode_h, source_map(files_h), probes)
         if w.get("api") == "string":
             v, _ = judge_parse(par, "string", files["main.fcp"], mode, {"main.fcp": [files["main.fcp"]]}, probes)
         else:
